@@ -19,20 +19,19 @@ theorem rd_slice {m r : Bytes} {s : Nat} (hr : r = slice m s r.length) {i : Nat}
 
 /-- **names inside RDATA, every compression layout.** If the RDATA bytes (a slice of the message) at `rdOff` denote the
 labels `ls` and the name ends inside the RDATA, `decodeNameFromRdata` returns exactly them and the offset behind the name.
-The root name is covered when it is written as a root label (`00`: the null MX of RFC 7505, the SRV target `.`); what is
-excluded is only a POINTER to a root label — refused by the code's `pointer + 1 < messageSize` test when that label is the
-last byte of the message, and never produced by an encoder (2 bytes instead of 1). -/
+The root name is covered both written as a root label (`00`: the null MX of RFC 7505, the SRV target `.`) and as a POINTER
+to a root label, including the one in the last byte of the message (refused before the repair of FC19f by the code's
+`pointer + 1 < messageSize` test). -/
 theorem rdataName_exact (m r : Bytes) (rdStart rdOff nx : Nat) (ls : List Bytes)
     (hr : r = slice m rdStart r.length) (hoff : rdOff < r.length)
-    (hwf : WellFormedName m (rdStart + rdOff) ls (rdStart + nx)) (hnx : nx ≤ r.length)
-    (hne : ls ≠ [] ∨ m[rdStart + rdOff]? = some 0) :
+    (hwf : WellFormedName m (rdStart + rdOff) ls (rdStart + nx)) (hnx : nx ≤ r.length) :
     rdataName m rdStart rdOff r = .ok (dottedName ls, nx) := by
   unfold rdataName
   have h1 : ¬ (r.length = 0 ∨ rdOff ≥ r.length) := by omega
   simp only [h1, ↓reduceIte]
   have hdec := decodeName_sound m _ ls _ hwf
   obtain ⟨hops, hd, hj, hw⟩ := hwf
-  generalize hA : rdStart + rdOff = A at hd hdec hne
+  generalize hA : rdStart + rdOff = A at hd hdec
   generalize hB : rdStart + nx = B at hd hdec
   have habs : A < m.length := by
     cases hd with
@@ -66,17 +65,16 @@ theorem rdataName_exact (m r : Bytes) (rdStart rdOff nx : Nat) (ls : List Bytes)
         simp only [this]
         rw [rd_ok hlt3, eb, eb2]
         rfl
-      have htgt : (b.toNat % 64) * 256 + b2.toNat < m.length ∧ (b.toNat % 64) * 256 + b2.toNat + 1 < m.length := by
+      have htgt : (b.toNat % 64) * 256 + b2.toNat + Gen.Dns.rdataPointerMargin < m.length := by
+        have hm0 : Gen.Dns.rdataPointerMargin = 0 := rfl
+        rw [hm0, Nat.add_zero]
         cases hrest with
-        | root h0 =>
-          rcases hne with hne | hne
-          · exact absurd rfl hne
-          · rw [hb] at hne; cases hne; rw [eb] at h192; exact absurd h192 (by decide)
-        | label hb' h1' _ hlen' _ => exact ⟨(List.getElem?_eq_some_iff.mp hb').1, by omega⟩
-        | ptr hb' _ hb2' _ => exact ⟨(List.getElem?_eq_some_iff.mp hb').1, (List.getElem?_eq_some_iff.mp hb2').1⟩
+        | root h0 => exact (List.getElem?_eq_some_iff.mp h0).1
+        | label hb' _ _ _ _ => exact (List.getElem?_eq_some_iff.mp hb').1
+        | ptr hb' _ _ _ => exact (List.getElem?_eq_some_iff.mp hb').1
       rw [eb] at hrd0 hp
       simp only [hlt2, ↓reduceIte, hrd0, bind, Except.bind, hp, show ¬ rdOff + 2 > r.length by omega, h16, pure, Except.pure,
-        ptr_value b b2 (by rw [← eb]; exact h192), htgt, and_self]
+        ptr_value b b2 (by rw [← eb]; exact h192), htgt]
       rw [decodeName_sound m _ ls nx' ⟨hops', hrest, by omega, hw⟩, hnx2]
   · -- labels first: decode at the absolute offset
     have hp' : isPtr m[A] = false := by simpa using hp
@@ -153,37 +151,35 @@ theorem typed_txt (m : Bytes) (rr : RR) (o : Nat) (ts : List Bytes) (ht : rr.typ
 
 /-- **CNAME**: the RDATA is a name, compressed in any way -/
 theorem typed_cname (m : Bytes) (rr : RR) (o : Nat) (ls : List Bytes) (ht : rr.type = 5)
-    (hr : rr.rdata = slice m o rr.rdata.length) (hd : WellFormedName m o ls (o + rr.rdata.length))
-    (hne : ls ≠ [] ∨ m[o]? = some 0) :
+    (hr : rr.rdata = slice m o rr.rdata.length) (hd : WellFormedName m o ls (o + rr.rdata.length)) :
     typedSpec m (rr, o) = some (.cname rr.name (dottedName ls) rr.ttl) := by
   apply typedSpec_of
   have hpos : 0 < rr.rdata.length := by
     obtain ⟨_, hh, _, _⟩ := hd
     have := hh.toDenotes.lt_next; omega
-  have := rdataName_exact m rr.rdata o 0 rr.rdata.length ls hr hpos (by simpa using hd) (Nat.le_refl _) (by simpa using hne)
+  have := rdataName_exact m rr.rdata o 0 rr.rdata.length ls hr hpos (by simpa using hd) (Nat.le_refl _)
   unfold typedOf
   simp [ht, Gen.Dns.typedTypes, parseCname, this, Except.map, show rr.rdata.length ≠ 0 by omega, bind, Except.bind, pure, Except.pure]
 
 /-- **PTR**: the RDATA is a name, compressed in any way -/
 theorem typed_ptr (m : Bytes) (rr : RR) (o : Nat) (ls : List Bytes) (ht : rr.type = 12)
-    (hr : rr.rdata = slice m o rr.rdata.length) (hd : WellFormedName m o ls (o + rr.rdata.length))
-    (hne : ls ≠ [] ∨ m[o]? = some 0) :
+    (hr : rr.rdata = slice m o rr.rdata.length) (hd : WellFormedName m o ls (o + rr.rdata.length)) :
     typedSpec m (rr, o) = some (.ptr rr.name (dottedName ls) rr.ttl) := by
   apply typedSpec_of
   have hpos : 0 < rr.rdata.length := by
     obtain ⟨_, hh, _, _⟩ := hd
     have := hh.toDenotes.lt_next; omega
-  have := rdataName_exact m rr.rdata o 0 rr.rdata.length ls hr hpos (by simpa using hd) (Nat.le_refl _) (by simpa using hne)
+  have := rdataName_exact m rr.rdata o 0 rr.rdata.length ls hr hpos (by simpa using hd) (Nat.le_refl _)
   unfold typedOf
   simp [ht, Gen.Dns.typedTypes, parsePtr, this, Except.map, show rr.rdata.length ≠ 0 by omega, bind, Except.bind, pure, Except.pure]
 
 /-- **MX**: preference, then a name compressed in any way -/
 theorem typed_mx (m : Bytes) (rr : RR) (o : Nat) (ls : List Bytes) (pref : Nat) (ht : rr.type = 15)
     (hr : rr.rdata = slice m o rr.rdata.length) (hp : rd16 rr.rdata 0 = .ok pref) (hlen : 2 < rr.rdata.length)
-    (hd : WellFormedName m (o + 2) ls (o + rr.rdata.length)) (hne : ls ≠ [] ∨ m[o + 2]? = some 0) :
+    (hd : WellFormedName m (o + 2) ls (o + rr.rdata.length)) :
     typedSpec m (rr, o) = some (.mx rr.name pref (dottedName ls) rr.ttl) := by
   apply typedSpec_of
-  have := rdataName_exact m rr.rdata o 2 rr.rdata.length ls hr hlen hd (Nat.le_refl _) hne
+  have := rdataName_exact m rr.rdata o 2 rr.rdata.length ls hr hlen hd (Nat.le_refl _)
   unfold typedOf
   simp [ht, Gen.Dns.typedTypes, parseMx, this, Except.map, Gen.Dns.minMx, show ¬ rr.rdata.length < 2 by omega, hp, hlen, bind, Except.bind,
     pure, Except.pure]
@@ -192,10 +188,10 @@ theorem typed_mx (m : Bytes) (rr : RR) (o : Nat) (ls : List Bytes) (pref : Nat) 
 theorem typed_srv (m : Bytes) (rr : RR) (o : Nat) (ls : List Bytes) (prio weight port : Nat) (ht : rr.type = 33)
     (hr : rr.rdata = slice m o rr.rdata.length) (h0 : rd16 rr.rdata 0 = .ok prio) (h2 : rd16 rr.rdata 2 = .ok weight)
     (h4 : rd16 rr.rdata 4 = .ok port) (hlen : 6 < rr.rdata.length)
-    (hd : WellFormedName m (o + 6) ls (o + rr.rdata.length)) (hne : ls ≠ [] ∨ m[o + 6]? = some 0) :
+    (hd : WellFormedName m (o + 6) ls (o + rr.rdata.length)) :
     typedSpec m (rr, o) = some (.srv rr.name prio weight port (dottedName ls) rr.ttl) := by
   apply typedSpec_of
-  have := rdataName_exact m rr.rdata o 6 rr.rdata.length ls hr hlen hd (Nat.le_refl _) hne
+  have := rdataName_exact m rr.rdata o 6 rr.rdata.length ls hr hlen hd (Nat.le_refl _)
   unfold typedOf
   simp [ht, Gen.Dns.typedTypes, parseSrv, this, Except.map, Gen.Dns.minSrv, show ¬ rr.rdata.length < 6 by omega, h0, h2, h4, hlen, bind,
     Except.bind, pure, Except.pure]
